@@ -23,7 +23,7 @@ RULE = ("Two real dilated wormholes; per side expected_subprotocols is unset or 
         "declared set. Distinct = (features, event-kind trace).")
 ASSUMPTIONS = ["normal (fully-closeable) protocols are asserted; for IHalfCloseableProtocol applications the "
                "read/writeConnectionLost notifications are recorded and reported, not asserted (docs: half-close "
-               "is unspecified)", "simulated TCP; no link kills here (C10 covers loss)"]
+               "is unspecified)", "simulated TCP; 0-2 kills of the link in use"]
 
 NAMES = ["p", "q", "r", "s"]
 
@@ -36,7 +36,7 @@ def cases(draw, tier="quick"):
         if draw(st.booleans()):
             expected.append(None)
         else:
-            expected.append(sorted(draw(st.sets(st.sampled_from(NAMES), min_size=1, max_size=3))))
+            expected.append(sorted(draw(st.sets(st.sampled_from(NAMES), min_size=0, max_size=3))))
     P["expected"] = expected
     ops = []
     counts = [0, 0]
@@ -69,6 +69,8 @@ def cases(draw, tier="quick"):
     perm = draw(st.permutations(range(len(ops))))
     P["ops"] = [ops[j] for j in sorted(range(len(ops)), key=lambda j: perm[j])]
     P["half"] = draw(st.integers(0, 7)) == 0
+    P["kills"] = draw(st.sampled_from([0, 0, 0, 1, 2]))
+    P["max_reconnects"] = 8
     n = draw(st.integers(30, 300))
     P["tape"] = draw(st.binary(min_size=n, max_size=n))
     return P
